@@ -259,94 +259,103 @@ def check(ctx):
                 ctx.check(ok0, entry, c, "original-space argument is inverse(x) of the same x (or x without a transformer)", "original-space point handed to the record routine is not the inverse transform of the same x")
 
     # ------------------------------------------------------------------ R4
-    ctx.rule("R4", "growth covers exactly the per-row arrays; counter increment and capacity test dominate the row stores", floor=len(arrays))
+    ctx.rule("R4", "growth covers exactly the per-row arrays (old rows first, same fill as at allocation, same amount, all filled rows kept); counter increment and capacity test dominate the row stores", floor=len(arrays))
+    from .growth import analyse_grow, fill_of_fresh, norm_fill
+
     grow = None
     for call, targets in prog.calls_in(rec):
         for t in targets:
-            if isinstance(t, FunctionInfo) and t.cls is R.logger_cls and find_appends(t):
-                grow = (t, call)
+            if isinstance(t, FunctionInfo) and t.cls is R.logger_cls and t is not rec:
+                n_re = sum(1 for tt, vv, ss, kk in iter_stores(t.node) if self_attr_of(tt) in arrays and isinstance(tt, ast.Attribute))
+                if n_re >= 3:
+                    grow = (t, call)
     if grow is None:
-        ctx.missing(rec, "call of a growth routine that extends the per-row arrays")
+        ctx.missing(rec, "call of a growth routine that re-binds the per-row arrays")
     else:
         gfn, gcall = grow
-        apps = find_appends(gfn)
+        scope_funcs = {n.name: n for n in ast.walk(gfn.node) if isinstance(n, ast.FunctionDef) and n is not gfn.node}
+        closure = {}
+        for st in gfn.node.body:
+            if isinstance(st, ast.Assign) and len(st.targets) == 1 and isinstance(st.targets[0], ast.Name) and not isinstance(st.value, ast.Lambda):
+                closure[st.targets[0].id] = st.value
+        # order of growth vs. counter increment in the record routine
+        gtests = guard_of(prog, rec, gcall)
+        counter = "self.Xn"
+        incs = [s_ for t, v, s_, k in iter_stores(rec.node) if canon(t) == counter and k == "aug" and const_num(v) == 1 and isinstance(s_.op, ast.Add)]
+        test_node = cfg.node_of(gtests[-1][0]) if gtests else None
+        inc_node = cfg.node_of(incs[0]) if len(incs) == 1 else None
+        before_inc = bool(test_node is not None and inc_node is not None and cfg.dominates(test_node.id, inc_node.id))
+        filled = "(1 + self.Xn)" if before_inc else "self.Xn"
         amounts = set()
-        grown = {}
-        for attr, call, stmt in apps:
-            grown[attr] = (call, stmt)
+        infos = {}
         for a in sorted(arrays):
-            if a not in grown:
-                # conditional arrays (noise) are allowed to be grown conditionally, not omitted
+            sts = [(t, v, s_) for t, v, s_, k in iter_stores(gfn.node) if self_attr_of(t) == a and isinstance(t, ast.Attribute)]
+            if not sts:
                 ctx.fail(gfn, gfn.node, f"per-row array {a} is allocated with cache_size rows but not extended by the growth routine: rows beyond the initial cache are lost / index out of range", construct=f"<no growth of {a}>")
                 continue
-            call, stmt = grown[a]
-            first = call.args[0] if call.args else None
-            ok = first is not None and self_attr_of(first) == a and isinstance(first, ast.Attribute)
-            fresh = call.args[1] if len(call.args) > 1 else None
-            fd = literal_shape_first_dim(fresh) if isinstance(fresh, ast.Call) else None
-            if fd is not None:
-                amounts.add(canon(fd))
-            rank = arrays[a]["rank"]
-            ax = kw(call, "axis")
-            ax_ok = rank == 1 or (ax is not None and const_num(ax) == 0)
-            fresh_rank_ok = isinstance(fresh, ast.Call) and shape_rank(fresh) == rank
-            fresh_cols_ok = True
-            if isinstance(fresh, ast.Call) and rank == 2:
-                sh = fresh.args[0]
-                fresh_cols_ok = isinstance(sh, (ast.Tuple, ast.List)) and len(sh.elts) == 2 and canon(sh.elts[1]) == arrays[a]["cols"]
-            if ok and fd is not None and ax_ok and fresh_rank_ok and fresh_cols_ok:
-                ctx.ok(gfn, stmt, f"{a} extended by {canon(fd)} rows, old contents first")
+            t, v, s_ = sts[-1]
+            info = analyse_grow(v, f"self.{a}", scope_funcs, closure)
+            if info is None:
+                ctx.undecided(f"growth idiom of {a} not recognised: {canon(v)[:60]}")
+                continue
+            infos[a] = info
+            alloc_fill = norm_fill(fill_of_fresh(arrays[a]["call"]))
+            got_fill = norm_fill(info["fill"])
+            probs = []
+            if not info["old_first"]:
+                probs.append("the old rows do not come first")
+            if not info["axis0"] and arrays[a]["rank"] != 1:
+                probs.append("rows are not added along axis 0 only")
+            if got_fill != alloc_fill and not ({got_fill, alloc_fill} <= {"0", "False"}):
+                probs.append(f"fresh rows are filled with {got_fill}, the array was allocated with {alloc_fill} (unused rows must stay distinguishable: NaN never equals a logged point)")
+            if info["amount"] is None:
+                probs.append("number of added rows not recognised")
             else:
-                ctx.fail(gfn, stmt, f"growth of {a} is not 'old contents first + fresh rows of the same width along axis 0'")
+                amounts.add(info["amount"])
+            cb = info["copy_bound"]
+            if cb not in ("all", filled, f"self.{a}.shape[0]"):
+                probs.append(f"only rows [:{cb}] are copied but rows [:{filled}] are filled when growth runs ({'before' if before_inc else 'after'} the row counter is advanced)")
+            if probs:
+                ctx.fail(gfn, s_, f"growth of {a}: " + "; ".join(probs), construct=f"growth of {a}: " + "; ".join(p_.split(' (')[0] for p_ in probs)[:120])
+            else:
+                ctx.ok(gfn, s_, f"{a}: {info['idiom']}, +{info['amount']} rows, fill {got_fill}, old rows first")
         if len(amounts) > 1:
             ctx.fail(gfn, gfn.node, f"per-row arrays are extended by different amounts {sorted(amounts)}", construct="growth amounts " + "|".join(sorted(amounts)))
-        for a in sorted(set(grown) - set(arrays)):
-            ctx.note(f"growth routine extends {a}, which is not allocated with cache_size rows in __init__")
-        # dominance of increment + capacity test over row stores on the new-row path
+        # capacity test relative to the increment order
         if newrow is not None:
-            gnode = cfg.node_of(gcall)
-            gtests = guard_of(prog, rec, gcall)
             cap_ok = False
-            counter = None
             for test, pol in gtests:
                 nf = int_le_form(test, neg=not pol)
                 if nf is None:
                     continue
                 form, const = dict(nf[1][0]), nf[1][1]
-                shapes = [k for k in form if ".shape[0]" in k and any(k.startswith(f"self.{a}.") for a in arrays)]
-                lens = [k for k in form if k.startswith("len(self.") and any(k == f"len(self.{a})" for a in arrays)]
-                cnt = [k for k in form if k not in shapes + lens]
-                if len(shapes + lens) == 1 and len(cnt) == 1 and nf[0] == "<=":
-                    cap, c = (shapes + lens)[0], cnt[0]
-                    # grow iff counter >= capacity:  capacity - counter <= 0
-                    if form[cap] == 1 and form[c] == -1 and const == 0:
+                caps = [k for k in form if (".shape[0]" in k or k.startswith("len(")) and any(f"self.{a}" in k for a in arrays)]
+                cnt = [k for k in form if k not in caps]
+                if len(caps) == 1 and cnt == [counter] and nf[0] == "<=":
+                    want_const = -1 if before_inc else 0
+                    if form[caps[0]] == 1 and form[counter] == -1 and const == want_const:
                         cap_ok = True
-                        counter = c
                     else:
-                        ctx.fail(rec, test, f"capacity test is not 'grow when the row counter reaches the capacity' (normal form {dict(form)} + {const} <= 0)")
+                        ctx.fail(rec, test, f"capacity test is not 'grow when the row about to be written ({'Xn+1' if before_inc else 'Xn'}) reaches the capacity' (normal form {dict((k, str(v)) for k, v in form.items())} + {const} <= 0)", construct=f"capacity test {canon(test)[:60]}")
                         cap_ok = None
             if cap_ok is False:
-                ctx.missing(rec, "capacity test (row counter >= number of allocated rows) guarding the growth call")
+                ctx.missing(rec, "capacity test (row counter against the number of allocated rows) guarding the growth call")
             elif cap_ok:
-                ctx.ok(rec, gcall, f"growth guarded by {counter} >= capacity")
-                test_node = cfg.node_of(gtests[-1][0])
-                incs = [s for t, v, s, k in iter_stores(rec.node) if canon(t) == counter and k == "aug" and const_num(v) == 1 and isinstance(s.op, ast.Add)]
-                if len(incs) != 1:
-                    ctx.fail(rec, rec.node, f"row counter {counter} is not incremented exactly once by 1 on the new-row path ({len(incs)} increments)", construct=f"increments of {counter}: {len(incs)}")
+                ctx.ok(rec, gcall, f"growth guarded by capacity test ({'before' if before_inc else 'after'} the increment)")
+            if len(incs) != 1:
+                ctx.fail(rec, rec.node, f"row counter {counter} is not incremented exactly once by 1 on the new-row path ({len(incs)} increments)", construct=f"increments of {counter}: {len(incs)}")
+            elif test_node is not None:
+                bad = []
+                for a, t, v, s_, k in groups[newrow]:
+                    sn = cfg.node_of(s_)
+                    if not (cfg.dominates(inc_node.id, sn.id) and cfg.dominates(test_node.id, sn.id)):
+                        bad.append(s_)
+                    if canon(t.slice) != counter:
+                        ctx.fail(rec, s_, f"new-row store of {a} is indexed by {canon(t.slice)}, not by the row counter {counter}")
+                if bad:
+                    ctx.fail(rec, bad[0], "a row store on the new-row path is not dominated by the counter increment and the capacity test")
                 else:
-                    inc_node = cfg.node_of(incs[0])
-                    bad = []
-                    for a, t, v, s, k in groups[newrow]:
-                        sn = cfg.node_of(s)
-                        if not (cfg.dominates(inc_node.id, sn.id) and cfg.dominates(test_node.id, sn.id) and cfg.dominates(inc_node.id, test_node.id)):
-                            bad.append(s)
-                    if bad:
-                        ctx.fail(rec, bad[0], "a row store on the new-row path is not dominated by the counter increment followed by the capacity test")
-                    else:
-                        ctx.ok(rec, incs[0], "increment -> capacity test -> row stores (dominance)")
-                    for a, t, v, s, k in groups[newrow]:
-                        if canon(t.slice) != counter:
-                            ctx.fail(rec, s, f"new-row store of {a} is indexed by {canon(t.slice)}, not by the row counter {counter}")
+                    ctx.ok(rec, incs[0], "increment and capacity test dominate the row stores")
 
     # ------------------------------------------------------------------ R5
     ctx.rule("R5", "no-record path writes only the evaluation counter and timing of the matched row", floor=1)
